@@ -91,4 +91,16 @@ CHECKS = {
         "note": "Trusted: marker kinematics (C09) and delta kernels (C06/C07) enter the reference through their own references; states are re-entered by snapshot/restore of every array and scalar attribute, validated by replaying histories on freshly constructed objects.",
         "technique": "explicit-state BFS over operation histories on the real interaction objects with a lock-step reference model",
     },
+    "C01": {
+        "text": "Small-scope exhaustive: a deviation-bounded lattice (deviation 2 quick / 3 thorough, plus the full filter x solver cross with forcing and free stream on) over simulator class x forcing x free stream x filter type/order x Poisson solver x zone width 0..4 x precision x non-square/non-cubic shapes x (dt, nu, rho) x state / velocity / forcing pattern alphabets x history length 1..2; every executed step of every tuple is compared cell by cell with an independent NumPy reference (direct-summation Green's function or dense Neumann solve, conservative ENO3, rotational form, filters, zone damping), plus exact clock advance and forcing reset. A negative control (reference with nu changed by 0.1%) must be rejected on every run.",
+        "design_ref": "DESIGN.md section 5 C01, section 4.1",
+        "note": "Bounded: field values come from finite pattern alphabets on grids of about 12 cells a side; a defect that needs a specific real value outside every alphabet and is invisible on the linear/branch structure would be missed (DESIGN section 6). Interpreter back end bound to generated code by conformance replay.",
+        "technique": "deviation-bounded product lattice of configurations x patterns x histories on the real simulators against an independent reference model",
+    },
+    "C14": {
+        "text": "Small-scope exhaustive: every element of the grid symmetry group (8 in 2-D, 48 in 3-D, transpositions mapping an (ny,nx) simulator to an (nx,ny) one) x deviation-bounded lattice of simulator configurations; two real simulators are stepped and compared after transforming (vorticity as pseudo-scalar/pseudo-vector, velocity/forcing/free stream as vectors). The oracle transcribes no formula.",
+        "design_ref": "DESIGN.md section 5 C14, section 4.1",
+        "note": "Bounded: one generic compactly supported state per configuration (VERIF_SEED rotates it); zero face sums are excluded as the property states.",
+        "technique": "exhaustive enumeration of the symmetry group x configuration lattice with a metamorphic (commutation) oracle on the real simulators",
+    },
 }
